@@ -11,8 +11,11 @@ git -C /repo diff --quiet || { echo "/repo has uncommitted changes"; exit 2; }
 trap 'git -C /repo checkout -- . ' EXIT INT TERM
 git -C /repo apply "$DIR/patch.diff" || { echo "patch does not apply"; exit 2; }
 for C in "$@"; do
+  # evidence and failure files describe the unchanged tree: set them aside during the seeded run
+  [ -f evidence/$C.json ] && cp evidence/$C.json /verif/target/evidence-$C.keep
   OUT=$(VERIF_SEED=${VERIF_SEED:-0} ./check "$C" --tier quick 2>&1); RC=$?
   V=$(printf '%s\n' "$OUT" | grep -c '^VIOLATION')
+  [ -f /verif/target/evidence-$C.keep ] && mv /verif/target/evidence-$C.keep evidence/$C.json
   echo "seed $NAME check $C: exit $RC, $V violation line(s)"
   printf '%s\n' "$OUT" | grep -A2 '^VIOLATION\|^INCONCLUSIVE' | cut -c1-600 | head -12
   python3 - "$DIR/meta.json" "$C" "$RC" "$V" <<'PY'
@@ -27,4 +30,3 @@ PY
 done
 git -C /repo checkout -- .
 trap - EXIT INT TERM
-# rebuild evidence on the unchanged tree is the caller's business
